@@ -54,7 +54,8 @@ theorem final_eq_doc : ∀ (prog : List Op) (w : WType),
     simp only [finalWith, h]
     exact ih _
 
-/-- a refused operation leaves the wavefront type unchanged, and a program consisting only of refused operations ends
+/-- (a property of the model's `next`, true by construction — NOT evidence about the code; the clause "a refused operation
+leaves both operands unchanged" is carried by the snapshot oracle only) a refused operation leaves the wavefront type unchanged, and a program consisting only of refused operations ends
 where it started (the value-level part — both operands' arrays untouched — is checked by the correspondence snapshots) -/
 theorem refusal_preserves_state :
     (∀ w op e, codeStep w op = .refused e → next w (codeStep w op) = w)
@@ -84,66 +85,78 @@ theorem typed_wavefront_stays_typed : ∀ w op w', w ≠ .none → codeStep w op
   | mul p => cases w <;> cases p <;> cases w' <;> simp [codeStep, stepWith, codeMul]
   | prop => cases w <;> cases w' <;> simp [codeStep, stepWith, codePropagate]
 
-/- Full-strength statement (FALSE on the current tree, known finding KF-C08-rotate-flip):
-   `∀ c p, docClassPtype c = some p → classPtype c = p ∧ ∀ w, classMul c w = docMul w p`
-   i.e. every documented class has its documented ptype and acts as the documented table says. -/
+theorem mem_WType_all : ∀ w : WType, w ∈ WType.all := by
+  intro w; cases w <;> simp [WType.all]
 
-/-- every documented plane class other than Rotate/Flip has its documented ptype, acts exactly as the documented table
-says for that ptype, and can be applied to some compatible wavefront -/
-theorem all_documented_classes_apply_partial :
-    ∀ c p, c ≠ .Rotate → c ≠ .Flip → docClassPtype c = some p →
+/-- what `classConforms c = true` means: the class has its documented ptype, acts exactly as the documented table says for
+it, and can be applied to some compatible wavefront -/
+theorem classConforms_spec (c : PlaneClass) (h : classConforms c = true) :
+    ∀ p, docClassPtype c = some p →
       classPtype c = p ∧ (∀ w, classMul c w = docMul w p) ∧ (∃ w w', classMul c w = .ok w') := by
-  intro c p hR hF
-  cases c <;> simp [docClassPtype] at hR hF ⊢ <;> intro hp <;> subst hp <;>
-    refine ⟨rfl, fun w => by cases w <;> rfl, ?_⟩
-  · exact ⟨.none, .none, rfl⟩
-  · exact ⟨.pupil, .pupil, rfl⟩
-  · exact ⟨.image, .image, rfl⟩
-  · exact ⟨.pupil, .pupil, rfl⟩
-  · exact ⟨.pupil, .pupil, rfl⟩
+  intro p hp
+  simp only [classConforms, hp, Bool.and_eq_true, beq_iff_eq, List.all_eq_true, List.any_eq_true] at h
+  obtain ⟨⟨h1, h2⟩, w, _, hw⟩ := h
+  refine ⟨h1, fun w => h2 w (mem_WType_all w), w, ?_⟩
+  cases hr : classMul c w with
+  | ok w' => exact ⟨w', rfl⟩
+  | refused e => rw [hr] at hw; cases hw
+
+/- Full-strength statement (FALSE on the current tree, known finding KF-C08-rotate-flip): `∀ c, classConforms c = true`,
+   i.e. every documented class has its documented ptype, acts as the documented table says and is applicable. -/
+
+/-- every public plane class conforms to the documentation, except possibly Rotate and Flip (known finding).
+Proved by evaluation over the generated class table, whatever classes it lists: it keeps holding when Rotate/Flip are
+fixed upstream or when a (conforming) class is added or documented. -/
+theorem all_documented_classes_apply_partial :
+    ∀ c, classConforms c = true ∨ c = .Rotate ∨ c = .Flip := by
+  intro c
+  cases c <;> first | exact Or.inl rfl | exact Or.inr (Or.inl rfl) | exact Or.inr (Or.inr rfl)
 
 /-- the undocumented public classes (Grism, LensletArray) behave as their documented base classes -/
 theorem undocumented_classes_follow_base :
     (∀ w, classMul .Grism w = classMul .DispersiveTilt w) ∧ (∀ w, classMul .LensletArray w = classMul .Plane w) := by
   constructor <;> intro w <;> cases w <;> rfl
 
-/-- class-level programs: for every program over the usable classes, the trace is the documented one -/
+/-- class-level programs: for every program whose planes are table-driven (decidable per class on the generated table; all
+public classes but Image — which forces `image`, as documented — and the broken Rotate/Flip), the trace is the documented one -/
 theorem class_run_eq_doc_partial : ∀ (prog : List COp) (w : WType),
-    (∀ op ∈ prog, op ≠ .mul .Rotate ∧ op ≠ .mul .Flip) →
+    (∀ c, COp.mul c ∈ prog → classTableDriven c = true) →
     classRun w prog = docRun w (prog.map COp.toOp) := by
   intro prog
   induction prog with
   | nil => intro w _; rfl
   | cons op rest ih =>
     intro w h
-    have hop := h op (by simp)
     have hs : classStep w op = stepWith docMul docPropagate w op.toOp := by
       cases op with
       | prop => exact propagate_typing.2.2.2.2 w
       | mul c =>
-        cases c <;> simp at hop <;> cases w <;> rfl
+        have hc := h c (by simp)
+        simp only [classTableDriven, List.all_eq_true, beq_iff_eq] at hc
+        exact hc w (mem_WType_all w)
     simp only [classRun, docRun, runWith, List.map_cons, hs]
     refine congrArg _ ?_
-    exact ih _ (fun o ho => h o (by simp [ho]))
+    exact ih _ (fun c hc => h c (by simp [hc]))
 
-/-- KNOWN FINDING witness (KF-C08-rotate-flip): `lentil.Rotate` and `lentil.Flip` are documented with ptype `transform`
-but are constructed with ptype `none`, and their `multiply` references names that do not exist, so every application
-is refused with AttributeError — they cannot be applied to any wavefront -/
-theorem kf_rotate_flip_unusable :
-    docClassPtype .Rotate = some .transform ∧ classPtype .Rotate = .none ∧
-    docClassPtype .Flip = some .transform ∧ classPtype .Flip = .none ∧
-    (∀ w, classMul .Rotate w = .refused .attributeError ∧ classMul .Flip w = .refused .attributeError) ∧
-    ¬ (∀ c p, docClassPtype c = some p → classPtype c = p ∧ ∀ w, classMul c w = docMul w p) := by
-  refine ⟨rfl, rfl, rfl, rfl, fun w => by cases w <;> exact ⟨rfl, rfl⟩, ?_⟩
-  intro h
-  have := (h .Rotate .transform rfl).1
-  cases this
+/-- KNOWN FINDING witness (KF-C08-rotate-flip), stated so that it stays true when the defect is fixed upstream: IF
+`lentil.Rotate` / `lentil.Flip` do not conform, THEN it is because they are not constructed with their documented ptype
+or because every application is refused (today: ptype `none` instead of `transform`, and AttributeError on every
+wavefront type; today's facts are in the generated `classPtype`/`classMissing` tables and replayed on the real code by
+the harness's `replay_finding`) -/
+theorem kf_rotate_flip_unusable : ∀ c, (c = .Rotate ∨ c = .Flip) → classConforms c = false →
+    docClassPtype c ≠ some (classPtype c) ∨ ∀ w, (classMul c w).isOk = false := by
+  intro c hc
+  rcases hc with rfl | rfl <;> intro h <;>
+    first
+    | (left; decide)
+    | (right; intro w; cases w <;> rfl)
+    | (exfalso; revert h; decide)
 
 /-- non-vacuity: a concrete mixed program with accepted and refused steps -/
 example : codeRun .none [.mul .pupil, .mul .tilt, .prop, .mul .pupil, .mul .transform, .prop, .mul .none]
     = [.ok .pupil, .ok .pupil, .ok .image, .refused .typeError, .ok .image, .ok .pupil, .refused .typeError] := rfl
 
-example : classRun .none [.mul .Pupil, .mul .Tilt, .mul .Flip, .prop, .mul .Image]
-    = [.ok .pupil, .ok .pupil, .refused .attributeError, .ok .image, .ok .image] := rfl
+example : classRun .none [.mul .Pupil, .mul .Tilt, .mul .Plane, .prop, .mul .Image]
+    = [.ok .pupil, .ok .pupil, .refused .typeError, .ok .image, .ok .image] := rfl
 
 end Lentil.C08
